@@ -21,8 +21,8 @@ allvars == <<vars, tvars>>
 e == Log[l]
 
 TCtx == {"c0", "c1", "c2"}
-TPipe == {"p1", "p2", "p3", "p4", "p5", "p6", "p7", "p8", "p9", "p10", "p11", "p12"}
-TThread == {"T1", "T2", "T3", "T4", "T5", "T6", "T7", "T8", "T9", "T10", "T11", "T12"}
+TPipe == PipeNames
+TThread == ThreadNames
 TNull == "NULL"
 
 OptOf(c) ==   \* contexts beyond nctx exist in the model but are never used
